@@ -110,7 +110,12 @@ def to_msg_worker(analysis: Analysis, spec) -> dict:
         guard5 = any(f[0] == "atom" and f[1][0] == "cmp" and f[1][1] in ("Lt", "GtE") for f in s.facts)
         eq_prefix = any(f[0] == "atom" and f[1][0] == "eq" and "in_prefix" in repr(f[1]) for f in s.facts)
         eq_truth = [f[2] for f in s.facts if f[0] == "atom" and f[1][0] == "eq" and "in_prefix" in repr(f[1])]
-        appended_payload = any("payload" in repr(e.args[0].key()) for e in appends if e.args)
+        def plain_payload(val) -> bool:
+            """str(payload) (or payload itself), nothing stripped / cut / rewritten on the way"""
+            k = repr(val.key())
+            return "payload" in k and not any(tok in k for tok in ("strip(", "lower(", "upper(", "replace", "slice:", "binop:", "split", "fstr:", "join"))
+
+        appended_payload = any(plain_payload(e.args[0]) for e in appends if e.args)
         def bounds_of(v):
             b = getattr(v, "slice_bounds", None) or {}
             return {k: (x.value if isinstance(x, Const) else "?") for k, x in b.items()}
@@ -141,7 +146,7 @@ def to_msg_worker(analysis: Analysis, spec) -> dict:
         if jitems is not None and len(jitems) == 6:
             if isinstance(jitems[3], Const):
                 ack = jitems[3].value
-            appended_payload = appended_payload or "payload" in repr(jitems[5].key())
+            appended_payload = appended_payload or plain_payload(jitems[5])
             pos = []
             for i in (0, 1, 2, 4):
                 src = getattr(jitems[i], "src_list", None)
@@ -355,7 +360,7 @@ def run(analysis: Analysis, tier: str) -> RuleResult:
         for r in accepted:
             ok_ack = (r["ack"] == "1" and r["qos_pos"]) or (r["ack"] == "0" and r["qos_nonpos"])
             res.add("C17-R1", f"{TO_MSG} / level 4 (ack) is \"1\" exactly when QoS > 0", ok_ack, "mysensors/gateway_mqtt.py", f"ack {r['ack']!r} with qos>0 known {r['qos_pos']}, qos<=0/None known {r['qos_nonpos']}", r["witness"] if not ok_ack else None)
-            res.add("C17-R1", f"{TO_MSG} / the payload is appended and the fields joined with ';'", r["append_payload"] and r["join_sep"] == ";", "mysensors/gateway_mqtt.py", f"separator {r['join_sep']!r}", r["witness"] if not (r["append_payload"] and r["join_sep"] == ";") else None)
+            res.add("C17-R1", f"{TO_MSG} / the payload is appended unchanged and the fields joined with ';'", r["append_payload"] and r["join_sep"] == ";", "mysensors/gateway_mqtt.py", f"separator {r['join_sep']!r}", r["witness"] if not (r["append_payload"] and r["join_sep"] == ";") else None)
             res.add("C17-R2", f"{TO_MSG} / a command is produced only when the recovered prefix equals the configured inbound prefix", r["prefix_equal"], "mysensors/gateway_mqtt.py", "prefix == transport.in_prefix on the accepting path", r["witness"] if not r["prefix_equal"] else None)
             res.add("C17-R2", f"{TO_MSG} / prefix is everything before the last five levels", r["prefix_pos"], "mysensors/gateway_mqtt.py", "\"/\".join(levels[:-5])", r["witness"] if not r["prefix_pos"] else None)
             res.add("C17-R1", f"{TO_MSG} / the command is built from exactly the last five levels", r["last5"], "mysensors/gateway_mqtt.py", "levels[-5:]", r["witness"] if not r["last5"] else None)
